@@ -471,6 +471,72 @@ def forms_keep(ds, e10, rng):
     return out
 
 
+def disguised_wrap(F, rng, per_shift):
+    """(m, q): q above the fast-path exponent limit by s, significand m <= 2^p such that m x 10^s does NOT fit 64 bits
+    but its low 64 bits are again <= 2^p: the disguised fast path must notice the overflow of the scaled
+    significand, not only its size.  m = t (5^s)^-1 mod 2^(64-s) for small t."""
+    out = []
+    lim = 2 << F.mbits
+    for sft in range(1, F.disg_exp - F.fast_exp + 1):
+        if lim * 10 ** sft < 1 << 64:
+            continue                                   # the product can never overflow (all of f32)
+        mod = 1 << (64 - sft)
+        inv = pow(5 ** sft, -1, mod)
+        found = tries = 0
+        while found < per_shift and tries < 200000:
+            tries += 1
+            t = rng.randrange(0, max(1, lim >> sft))
+            m = (t * inv) % mod
+            if 0 < m <= lim and m * 10 ** sft >= 1 << 64:
+                assert (m * 10 ** sft) % (1 << 64) <= lim
+                out.append((m, F.fast_exp + sft))
+                found += 1
+    return out
+
+
+def g_disguised_wrap(F, rng, tier):
+    """G18: the (m, q) above as parse inputs"""
+    out = []
+    for (m, q) in disguised_wrap(F, rng, 3 if tier == "quick" else 40):
+        ds = str(m)
+        t = ds.rstrip("0") or "0"
+        i, f, e = rng.choice(forms(t, q + len(ds) - len(t), rng, nforms=2, long_ok=False))
+        out.append(mk(F.name, i, f, e, "G18:disguised-wrap"))
+    return out
+
+
+def g_budget_splits(F, rng, tier):
+    """G19: digit strings about as long as the digit budget of the big-integer path (MAX_DIGITS) with the decimal point
+    at EVERY position in the last 21 digits before the budget, at multiples of 19 (the native chunk) +-1, and at both
+    ends: exact expansions of midpoints between subnormals (up to 767 / 112 digits), the same with a far-out 1 and with
+    a tail of nines.  Whatever bookkeeping couples the budget, the chunk counter and the integer / fraction boundary
+    sees every alignment."""
+    out = []
+    q = tier == "quick"
+    cands = []
+    for bits in [0, 1, 2] + [rng.randrange(1, 1 << F.mbits) for _ in range(2 if q else 12)]:
+        M, k = F.midpoint(bits)
+        ds, e10 = exact_decimal(M, k)
+        cands.append((ds, e10))
+    for (ds, e10) in cands:
+        n = len(ds)
+        v = int(ds)
+        variants = [("exact", ds, e10), ("far1", ds + "0" * 3 + "1", e10 - 4), ("nines", str(v - 1) + "9" * 25, e10 - 25)]
+        for (name, d, e) in variants:
+            nn = len(d)
+            pos = set(range(max(1, F.max_digits - 21), min(nn, F.max_digits + 2) + 1)) | {1, nn} | \
+                {p + dlt for p in range(19, nn, 19) for dlt in (-1, 0, 1) if 0 < p + dlt <= nn}
+            pos = sorted(pos)
+            if q and len(pos) > 16:
+                keep = set(range(max(1, F.max_digits - 21), min(nn, F.max_digits + 2) + 1))
+                pos = sorted(keep | set(rng.sample(pos, 6)))
+                if name != "exact":
+                    pos = rng.sample(pos, 8)
+            for pnt in pos:
+                out.append(mk(F.name, d[:pnt], d[pnt:], e + (nn - pnt), "G19:budget-" + name))
+    return out
+
+
 def g_floats_exact(F, rng, n):
     """exactly representable values (the float itself, not the midpoint)"""
     out = []
@@ -1004,6 +1070,15 @@ def g_groups(F, rng, tier):
     for ds in ("1", "10", "10000", "12345678901234567890", "9999999999999999999", "18446744073709551616"):
         for e in (0, F.fast_exp, F.fast_exp + 1, -F.fast_exp - 1, F.disg_exp, F.p10_hi - len(ds), F.p10_lo + 5, 4, 8):
             group(ds.rstrip("0") or "1", e + len(ds) - len(ds.rstrip("0")), "C10:seam")
+    # the decimal point at every position next to the digit budget of the big-integer path: one group per digit string
+    bysame = {}
+    for r in g_budget_splits(F, rng, tier):
+        key = (r["tag"], r["int"] + r["frac"])
+        bysame.setdefault(key, []).append(r)
+    for (tag, _), mem in bysame.items():
+        if len(mem) > 1:
+            out.append({"kind": "group", "fmt": F.name, "tag": "C10:" + tag.split(":")[1],
+                        "members": [{"int": m["int"], "frac": m["frac"], "exp": m["exp"]} for m in mem]})
     for k, r in enumerate(out):
         r["id"] = k + 1
     return out
